@@ -47,6 +47,9 @@ func Gen(f Focus, thorough bool) *rapid.Generator[Script] {
 			}
 			unit = s.Timeout
 		}
+		if !withTO && rapid.IntRange(0, 4).Draw(t, "negto") == 0 {
+			s.Timeout = -pick(t, "negtov", int64(1), 1000, 1<<62) // negative = no timeout, as documented
+		}
 		T := unit
 		s.InCap = pick(t, "cap", 0, 0, 1, 2, 3, 6)
 		maxN := 20
@@ -86,6 +89,7 @@ func Gen(f Focus, thorough bool) *rapid.Generator[Script] {
 		}
 		if s.Kind == KindV2Unite {
 			s.SharedArray = rapid.Bool().Draw(t, "sharedarr")
+			s.NilEmpty = rapid.Bool().Draw(t, "nilempty")
 		}
 		s.CloseGap = pick(t, "cg", int64(0), 0, T/2, T, 3*T)
 		if mode == "single" {
